@@ -67,7 +67,7 @@ func run(t *rapid.T, persistent bool) {
 	if persistent {
 		w.InstallDurableCheck()
 	}
-	h := lstore.NewHist(t, w, c, lstore.HistOpts{BadUploads: true, Holds: true, Composite: true, Syncers: persistent, Faults: persistent, DevFaults: true})
+	h := lstore.NewHist(t, w, c, lstore.HistOpts{BadUploads: true, Holds: true, Composite: true, Syncers: persistent, Faults: persistent, Shutdown: persistent, DevFaults: true})
 	acts := h.Actions()
 	quiesces := 0
 	acts["quiesce"] = func(t *rapid.T) {
@@ -91,6 +91,9 @@ func run(t *rapid.T, persistent bool) {
 	quiescentCheck(t, w, "end of history")
 	if d := w.St.Media.Data; d != nil {
 		d.FailWrite = nil
+	}
+	if d := w.St.Media.Index; d != nil {
+		d.FailRead = nil
 	}
 	allocFailures := w.St.Alloc.NewBlockFailures
 	heldAcross := h.HeldAcrossRotation
